@@ -131,6 +131,17 @@ impl Word {
     pub fn clear_init(&mut self) {
         self.init = NO_BITS;
     }
+
+    /// Verification hook: exposes the data bits and the initialization mask.
+    #[cfg(endorpersand_lc3_ensemble_verif)]
+    pub fn verif_parts(&self) -> (u16, u16) {
+        (self.data, self.init)
+    }
+    /// Verification hook: builds a word from data bits and an initialization mask.
+    #[cfg(endorpersand_lc3_ensemble_verif)]
+    pub fn verif_from_parts(data: u16, init: u16) -> Self {
+        Self { data, init }
+    }
 }
 impl From<u16> for Word {
     /// Creates a fully initialized word.
